@@ -60,6 +60,9 @@ def block(s, rng):
 
 
 def cases(rng, tier):
+    # objects handed back by moves / shuffles, and copy / deepcopy / pickle duplicates of objects with built-up state
+    for l in core.childq_cases(rng, 60 if tier == "quick" else 400, ['pi', 'phq ncpr 7/1']):
+        yield Case([l], {"kind": "object-from-move-or-copy"})
     n = 3 if tier == "quick" else 5
     for L in range(1, n + 1):
         for t in itertools.combinations_with_replacement("KRHDECYG", L):
@@ -89,12 +92,25 @@ def cases(rng, tier):
         else:
             lines += qs + ["o 0 pi"]
         yield Case(lines, {"kind": "same-object-" + order})
+    # out-of-range pH values on their own (small blocks: positional and keyword, int and float)
+    for sq in ("KDG", "GSEDEEGSDKGSEEDYGS"):
+        for bad in ("-1/100", "-1", "1401/100", "15", "141/10", "-5/1", "20/1", "1000/1"):
+            yield Case(["q phq %s %s %s" % (sq, g_, bad) for g_ in ("ncpr", "fcr", "fer", "mnc")], {"kind": "pH-out-of-range", "meta": [("bad", None)] * 4, "seq": sq})
+    # chains of more than 10000 residues whose titratable residues are a minority
+    for unit, reps in (("G" * 59 + "K", 171), ("GSGSQNGSPAGS" * 5 + "D", 165), ("SG" * 30 + "H", 165))[:1 if tier == "quick" else 3]:
+        s = unit * reps
+        yield Case(["q pi " + s, "q pisound " + s, "q phq %s ncpr 7/1" % s, "q phq %s fcr 3/1" % s], {"kind": "very-long"})
     for kind, s in gen.rand_seqs(rng, 100 if tier == "quick" else 1000, 300):
         lines, meta = block(s, rng)
         yield Case(lines, {"kind": kind, "meta": meta, "seq": s}, nontrivial=any(c in "KRHDECY" for c in s))
 
 
 def judge(case, reals, gens, specs):
+    if case.block and case.block[0].startswith("childq "):
+        if reals[0][0] != "childq":
+            return [("violation", 0, "%s -> %s" % (case.block[0], str(reals[0])[:300]))]
+        ok_c, why = core.judge_childq(reals[0])
+        return [] if ok_c else [("violation", 0, why)]
     out = []
     for i, (r, g, s) in enumerate(zip(reals, gens, specs)):
         if not core.match(r, s)[0]:
